@@ -211,7 +211,14 @@ def c13(run, tier):
     # spec -> code: every history of MaxSteps calls (Frame / HeldStable / SerialValue checked in the same run)
     cfg = run.cfg("MC_Xsel.cfg", {"MaxSteps": Q(tier, 3, 4)}, "gen.cfg")
     trace = os.path.join(run.work, "hist.ndjson")
+    if tier != "quick":
+        # ~900,000 histories of four calls: TLC checks Frame / HeldStable / SerialValue on all of them; one in eight is executed
+        # on the real code and judged by the trace specification (about 30 minutes of trace judging otherwise)
+        run.env["VERIF_HIST_SAMPLE"] = "8"
+        run.notes.append("thorough: one history in eight (hash of the history and the seed) is executed and judged")
+        run.exhaustive = False
     run.tlc_gen_replay("Xsel", cfg, "histories", harness_args=["-out", trace], timeout=Q(tier, 400, 3000))
+    run.env.pop("VERIF_HIST_SAMPLE", None)
     run.trace_validate([], "histories", frame_aspect=True, order_aspect=True, trace_file=trace, timeout=Q(tier, 600, 3000))
     # code -> spec: long random sessions over shared cursors, compiled expressions and result slices
     for i in range(Q(tier, 1, 4)):
